@@ -294,6 +294,11 @@ class MinFlowDecompCycles(walkmodel.AbstractWalkModelDiGraph):
 
     def _get_lowerbound_with_min_gen_set(self) -> int:
 
+        # The generating-set bound is derived from the flow values of all edges and from the total source flow;
+        # it is not a lower bound for decompositions that need not explain ignored edges
+        if len(self.edges_to_ignore) > 0:
+            return None
+
         min_gen_set_start_time = time.perf_counter()
         all_weights = list(set({self.G.edges[e][self.flow_attr] for e in self.G.edges() if self.flow_attr in self.G.edges[e]}))
         # Get the source_flow as the sum of the out_flow - in_flow, for all nodes
